@@ -337,8 +337,8 @@ func c08(c *Ctx) {
 		prev = p
 	}
 
-	nPlay := c.Size(150, 5000)
-	nSynth := c.Size(1500, 50000)
+	nPlay := c.Size(150, 40000)
+	nSynth := c.Size(1500, 400000)
 	gi := 0
 	sampled := 0
 	forEachGame(c, "c08", nPlay, 80, nSynth, func(g Game) {
